@@ -90,6 +90,7 @@ Reply(a) ==
     [] a.op = "del"    -> Has(a.k)
     [] a.op = "clear"  -> 0
     [] a.op = "setcap" -> 0
+    [] a.op = "mut"    -> 0
     [] OTHER           -> 0
 
 Do(a) ==
@@ -115,6 +116,8 @@ Do(a) ==
          /\ cap' = a.c
          /\ Install(Trimmed(order, val, sz, size, a.c))
          /\ UNCHANGED sized
+    [] a.op = "mut" ->   \* the stored value object now reports another Size(); the cache is not
+         UNCHANGED vars   \* told: it keeps charging what the value said when it was stored
     [] OTHER -> FALSE
 
 InitWith(c, s) ==
